@@ -200,6 +200,24 @@ def run_case(case):
             if snapshot_model(model) != m_before:
                 res["violations"].append({"key": "model_modified", "what": f"call {h} ({kind}): the model object was modified (functions/states/choices)"})
             hist_out.setdefault((kind, i), []).append((h, leaf, got))
+        # value arrays are arguments too: the solve result is handed to the simulate target twice and
+        # must still be usable (and unchanged) afterwards
+        try:
+            import jax.numpy as jnp
+
+            fs_only, _ = pipeline.get_lcm_function(model, "simulate")
+            sol_j = fsolve(dsl.lcm_params(psets[0]))
+            keep = [np.asarray(a_) for a_ in sol_j]
+            a0 = sim_args[0]
+            st0 = {k: jnp.asarray(v) for k, v in golden.typed_init(a0).items()}
+            d1 = fs_only(dsl.lcm_params(psets[0]), initial_states=st0, vf_arr_list=list(sol_j), seed=4)
+            d2 = fs_only(dsl.lcm_params(psets[0]), initial_states=st0, vf_arr_list=list(sol_j), seed=4)
+            after = [np.asarray(a_) for a_ in sol_j]
+            add("value_array_reuse_sequences")
+            if simcheck.frames_equal(d1, d2, tol=1e-12) or any(not np.array_equal(x_, y_, equal_nan=True) for x_, y_ in zip(keep, after)):
+                res["violations"].append({"key": "value_arrays_modified", "what": "two simulate calls with the same value arrays differ, or the arrays passed as vf_arr_list were modified"})
+        except Exception as e:  # noqa: BLE001
+            res["violations"].append({"key": f"value_arrays_unusable_after_simulate|{type(e).__name__}", "what": f"value arrays passed as vf_arr_list cannot be used again after the call: {pipeline.exc_text(e)}"})
         # rebuild in the same process
         f2, _ = pipeline.get_lcm_function(dsl.build_lcm_model(desc), "solve", jit=jit_solve)
         r2 = f2(dsl.lcm_params(psets[1]))
